@@ -50,7 +50,7 @@ def _params(name: str, nbits: int, C: int, N: int, tier: str):
         return [None]
     if name == "mask":
         ms = [[int(b) for b in f"{i:04b}"] + [0] * (C - 4) for i in range(16)]
-        ms += [[1] * C, [0, 1] * (C // 2), [0] * (C - 1) + [1]]
+        ms += [[1] * C, ([0, 1] * C)[:C], [0] * (C - 1) + [1]]
         vals = [0, 1] if nbits <= 2 else [0, 3]
         out = [[m, v] for m in ms for v in vals]
         # larger fill values on a few masks: the value is cast to the file's sample type
@@ -58,8 +58,9 @@ def _params(name: str, nbits: int, C: int, N: int, tier: str):
         return out
     if name == "extract_chans":
         # [channel list, batch_size]; small batch sizes exercise the second and later batches
-        lists = [[0], [C - 1], [2, 5], [5, 2], None, [3, 3]]
-        return [[cl, 200] for cl in lists] + [[None, 3], [[5, 2, 7, 0], 1], [[1, 4, 6], 2]]
+        hi = C - 1
+        lists = [[0], [hi], [2, hi - 2], [hi - 2, 2], None, [3, 3]]
+        return [[cl, 200] for cl in lists] + [[None, 3], [[hi - 2, 2, hi, 0], 1], [[1, 4, hi - 1], 2]]
     if name == "extract_bands":
         out = []
         for cps in (2, 4, 8):
@@ -73,9 +74,9 @@ def _params(name: str, nbits: int, C: int, N: int, tier: str):
         return out
     if name == "downsample":
         tfs = range(1, N + 1) if tier == "thorough" else [1, 2, 3, 4, 5, 7, N]
-        return [[tf, ff] for tf in tfs for ff in (1, 2, 4, 8) if C % ff == 0 and aligned(C // ff)]
+        return [[tf, ff] for tf in tfs for ff in (1, 2, 4, 5, 8) if C % ff == 0 and aligned(C // ff)]
     if name == "subband":
-        return [[dm, nsub] for dm in DMS for nsub in (1, 2, 4, 8)]
+        return [[dm, nsub] for dm in DMS for nsub in (1, 2, 4, 5, 8) if C % nsub == 0]
     raise AssertionError(name)
 
 
@@ -85,13 +86,16 @@ TRANSFORMS = ["invert", "mask", "extract_samps", "extract_chans", "extract_bands
 def shards(tier: str, seed: int) -> list:
     b = bounds(tier)
     out = []
-    for nbits in b["depths"]:
-        for name in TRANSFORMS:
-            ps = _params(name, nbits, b["C"], b["N"], tier)
+    combos = [(nbits, b["C"], name) for nbits in b["depths"] for name in TRANSFORMS]
+    # an odd channel count (only possible at whole-byte depths)
+    combos += [(nbits, 5, name) for nbits in (8, 32) for name in ("invert", "mask", "extract_samps", "extract_chans", "downsample", "subband", "zerodm")]
+    for nbits, Cc, name in combos:
+        if True:
+            ps = _params(name, nbits, Cc, b["N"], tier)
             # split big parameter lists for parallelism
             nchunk = max(1, len(ps) // 6)
             for i in range(0, len(ps), nchunk):
-                out.append({"nbits": nbits, "N": b["N"], "C": b["C"], "transform": name, "plo": i, "phi": min(len(ps), i + nchunk), "tier": tier})
+                out.append({"nbits": nbits, "N": b["N"], "C": Cc, "transform": name, "plo": i, "phi": min(len(ps), i + nchunk), "tier": tier})
     return out
 
 
@@ -103,6 +107,10 @@ def _design(N: int, tier: str):
         pts += [(g, 0, None) for g in gulps] + [(g, 2, None) for g in (1, 4)]
         return pts
     pts = []
+    if tier == "small":  # used for the odd-channel-count variants in quick
+        pts += [(g, 0, None) for g in gulps]
+        pts += [(3, s, n) for (s, n) in ranges]
+        return pts
     for g in gulps:
         pts += [(g, 0, None), (g, 2, N - 5), (g, 1, None)]
     for g in (1, 3, N + 1):
@@ -258,7 +266,7 @@ def run_shard(shard: dict, ctx, res, only=None) -> None:
     site = {"invert": "Filterbank.invert_freq", "mask": "Filterbank.apply_channel_mask", "extract_samps": "Filterbank.extract_samps",
             "extract_chans": "Filterbank.extract_chans", "extract_bands": "Filterbank.extract_bands",
             "downsample": "Filterbank.downsample", "subband": "Filterbank.subband", "zerodm": "Filterbank.remove_zerodm"}[name]
-    design = _design(N, shard["tier"])
+    design = _design(N, "small" if (C == 5 and shard["tier"] == "quick") else shard["tier"])
     for p in params:
         for g, st, ns in design:
             if only is not None and [p, g, st, ns] != only:
